@@ -133,3 +133,35 @@ def rule_host_operator_pitfalls(ctx, rep, rid: str) -> None:
             rep.bad(rid, key, f"the {opn} handler applies the host operator directly ({short(hit, 40)}): {why}", f"{df.module.rel}:{hit.lineno}")
         else:
             rep.ok(rid, key)
+
+
+def rule_bool_is_not_a_number(ctx, rep, rid: str) -> None:
+    """C06-R4: Python's bool is a subclass of int.  Wherever a script value is handed back *unchanged* as a
+    number because it passed an `isinstance(v, int)` / `isinstance(v, (int, float))` test, booleans must have
+    been excluded first (an earlier `isinstance(v, bool)` branch, or `not isinstance(v, bool)` in the test)."""
+    rep.rule(rid, "a script value is returned unchanged as a number under an isinstance(v, int/float) test only after booleans were excluded (bool is a subclass of int in the host)", floor=4)
+    from ..util import atoms
+
+    for f in ctx.tree.funcs:
+        if f.module.name not in ("vm", "values", "context"):
+            continue
+        for r in f.own_nodes():
+            if not (isinstance(r, ast.Return) and isinstance(r.value, ast.Name)):
+                continue
+            v = r.value.id
+            g = guards_of(r, f.node)
+            ats = [(norm(a), p) for t, pol in g for a, p in atoms(t, pol)]
+            num_test = [a for a, p in ats if p and a.startswith(f"isinstance({v}, ") and ("int" in a.split(",", 1)[1]) and "bool" not in a]
+            if not num_test:
+                continue
+            key = f"{f.qual}:return {v} under {num_test[0]}"
+            excluded = any((a == f"isinstance({v}, bool)" and not p) for a, p in ats)
+            if not excluded:
+                # an earlier sibling `if isinstance(v, bool): return ...`
+                for s in f.own_nodes():
+                    if isinstance(s, ast.If) and s.lineno < r.lineno and norm(s.test) == f"isinstance({v}, bool)" and s.body and isinstance(s.body[-1], (ast.Return, ast.Raise)):
+                        excluded = True
+            if excluded:
+                rep.ok(rid, key)
+            else:
+                rep.bad(rid, key, f"{f.qual} returns `{v}` unchanged when {num_test[0]} holds, without excluding booleans first: true/false are passed through as numbers-that-are-booleans (e.g. `true | false` yields a boolean, `typeof` says 'boolean')", f"{f.module.rel}:{r.lineno}")
